@@ -136,12 +136,19 @@ def _int_to_cst(value: int) -> cst.BaseExpression:
     Returns:
         A ``cst.Integer`` or ``cst.UnaryOperation`` node.
     """
+    try:
+        digits = str(abs(value))
+    except ValueError:
+        # The value has more digits than the interpreter converts to a decimal
+        # string (see sys.set_int_max_str_digits) or accepts in a decimal
+        # literal; hexadecimal literals are not limited.
+        digits = hex(abs(value))
     if value < 0:
         return cst.UnaryOperation(
             operator=cst.Minus(),
-            expression=cst.Integer(str(abs(value))),
+            expression=cst.Integer(digits),
         )
-    return cst.Integer(str(value))
+    return cst.Integer(digits)
 
 
 def _float_to_cst(value: float) -> cst.BaseExpression:
@@ -258,7 +265,9 @@ def _tuple_elements(
 def _parse_int(expr: cst.BaseExpression) -> int | None:
     """Extract an integer value from a CST expression.
 
-    Handles plain ``cst.Integer`` and ``cst.UnaryOperation(Minus, Integer)``.
+    Handles plain ``cst.Integer`` and ``cst.UnaryOperation(Minus, Integer)``;
+    the integer may be written in any base (``_int_to_cst`` renders huge
+    integers in hexadecimal).
 
     Args:
         expr: The CST expression to inspect.
@@ -267,13 +276,13 @@ def _parse_int(expr: cst.BaseExpression) -> int | None:
         The integer value, or ``None`` if the expression is not parseable.
     """
     if isinstance(expr, cst.Integer):
-        return int(expr.value)
+        return int(expr.value, 0)
     if (
         isinstance(expr, cst.UnaryOperation)
         and isinstance(expr.operator, cst.Minus)
         and isinstance(expr.expression, cst.Integer)
     ):
-        return -int(expr.expression.value)
+        return -int(expr.expression.value, 0)
     return None
 
 
